@@ -200,9 +200,12 @@ func checkC14(c *Ctx, r *Report) {
 	r.Floor("table_points", 300)
 	// T1: fixed-base routines
 	for _, name := range []string{"ScalarBaseMult", "scalarBaseMult_SkipBitExtraction_6_3_14", "scalarBaseMult_SkipBitExtraction_5_3_17", "scalarBaseMult_SkipBitExtraction_4_2_32", "scalarBaseMult_SkipBitExtraction_7_3_12"} {
-		fn := p.MustFunc(r, "sm2/internal."+name)
+		fn := p.Func("sm2/internal." + name)
 		if fn == nil {
-			continue
+			if name == "ScalarBaseMult" {
+				p.MustFunc(r, "sm2/internal."+name)
+			}
+			continue // an unused alternative comb scheme may be removed or renamed
 		}
 		key, pos := "sm2/internal."+name, p.Pos(fn.Pos())
 		e := newSched(p, tables)
@@ -322,7 +325,9 @@ func c14ScalarMult(r *Report, p *Prog, tables map[string]*tabSem) {
 		}
 	}
 	if header == nil || retVal == nil {
-		r.Viol("SCHEDULE", key, pos, "no loop over the bytes of the scalar / no (point, nil) return found")
+		// the loop is not a loop over the bytes of the scalar (digits, merged counters, ...): no induction; the schedule is
+		// evaluated instead for every scalar length a caller can reasonably pass, each for all byte values
+		c14ScalarMultUnrolled(r, p, tables, fn)
 		return
 	}
 	mk := func() (*sched, *sState) {
@@ -559,4 +564,50 @@ func c14Select(r *Report, p *Prog) {
 		r.Check(len(res.bad) == 0, "SELECT-SEMANTICS", key, pos, fmt.Sprintf("for each of the %d index values the result is the receiver (index 0) or exactly the limbs of entry index-1 with %s, for arbitrary table words", c.width+1, ifs(c.hasZ, "Z from the table")+ifs(!c.hasZ, "Z = one"))+ifs(len(res.bad) > 0, ": "+strings.Join(res.bad, "; ")))
 	}
 	r.Floor("select_evaluations", 100)
+}
+
+// c14ScalarMultUnrolled: ScalarMult for scalar lengths 0..34, 48 and 64, each for all byte values (the scalar bytes are
+// vectors of bit symbols): the result must be [sum 2^i scalar_i] P.
+func c14ScalarMultUnrolled(r *Report, p *Prog, tables map[string]*tabSem, fn *ssa.Function) {
+	key, pos := "sm2/internal.ScalarMult", p.Pos(fn.Pos())
+	var lens []int
+	for n := 0; n <= 34; n++ {
+		lens = append(lens, n)
+	}
+	lens = append(lens, 48, 64)
+	bad := ""
+	steps := 0
+	for _, n := range lens {
+		e := newSched(p, tables)
+		st := newSState()
+		pid := e.newID()
+		st.heap[pid] = &hPoint{form: pform{pfKey("", "P"): big.NewInt(1)}}
+		rets := e.runFunc(fn, st, []sVal{sPoint{pid}, sBytes{"scalar", n}})
+		steps += e.steps
+		if !e.report(r, fmt.Sprintf("%s (%d-byte scalar)", key, n), pos) {
+			return
+		}
+		want := bitsForm("scalar", 8*n, "P")
+		if len(rets) == 0 {
+			bad = fmt.Sprintf("no result for a %d-byte scalar", n)
+			break
+		}
+		for _, rt := range rets {
+			got, isP := rt.st.form(rt.vals[0])
+			_, nilErr := rt.vals[1].(sNil)
+			if !isP || !nilErr {
+				bad = fmt.Sprintf("the %d-byte path does not return (point, nil)", n)
+				break
+			}
+			if !pfEqual(got, want) && !rt.st.allZero(pfDiffAtoms(want, got)) && !rt.st.nullDiff(want, got) {
+				bad = fmt.Sprintf("%d-byte scalar: %s", n, describeDiff(want, got))
+				break
+			}
+		}
+		if bad != "" {
+			break
+		}
+	}
+	r.Check(bad == "", "SCHEDULE", key+" (lengths 0..34, 48, 64)", pos, fmt.Sprintf("the loop is not a byte loop, so no induction over the length: for each of %d scalar lengths and all byte values the result is [sum 2^i scalar_i]P (%d abstract steps)", len(lens), steps)+ifs(bad != "", ": "+bad))
+	r.Note("C14 ScalarMult: decided per scalar length (0..34, 48, 64 bytes), not by induction over the length: the loop of this tree is not a loop over the bytes of the scalar")
 }
